@@ -419,7 +419,8 @@ func runC09Case(c *fw.Ctx, id string, v refmatch.Variant, wl c09Workload, w wind
 					if spec.FilterType == packets.FilterTypeSYNACK {
 						// mutated handshake segments that are not on the probed connection (wrong port)
 						for i := 0; i < 20; i++ {
-							sa := e.peer.SynAckBytes(drive.Local4, uint16(1024+r.Intn(60000)))
+							// (ports below the kernel's range for local ports, 32768..60999: not the one this connection gets)
+							sa := e.peer.SynAckBytes(drive.Local4, uint16(1024+r.Intn(31000)))
 							mm, _ := mutate(r, sa)
 							if len(mm) == 0 {
 								continue // a zero-length read is a capture-layer failure class (C10), not a packet
